@@ -7,6 +7,7 @@ import "verif/vx"
 func init() {
 	add := vx.AppendRule
 	add("C01", " Also: the decoding calls with decode options (all / each alone; DecodeChained with all) over the header space with every cut, the corpus with cuts, developer-field definitions and record-header words; (h) headers that lie about the data size: every declared size from 0 to past the end on streams with a 200-byte array, 40-byte strings and 100 bytes of developer data, followed by the rest of the bytes / a right CRC and another file / nothing, under whole-buffer, 1-, 3- and 17-byte reads.")
+	add("C01", " (k) every string field (scalar and array) of every known message filled with every word of length 1..4 over the UTF-8 byte classes {NUL, ASCII, 0x80, 0xBF, 2-/3-/4-byte lead bytes, 0xFF}.")
 	add("C01", " (j) every pair of record-header bytes with model-expected bodies between the file_id definition and the first file_id data record.")
 	add("C01", " (i) a local timestamp at every whole-second distance between -15 h and +15 h from its UTC reference, both byte orders.")
 	add("C12", " Zone-offset sweep: a local timestamp at every whole-second distance between -15 h and +15 h from its UTC reference (108 001 offsets, both byte orders) must read the stored wall clock in a zone that far from UTC.")
@@ -18,5 +19,5 @@ func init() {
 	add("C11", " The decoding calls are made bare and with decode options; streams whose trailing CRC has a zero high byte, a zero low byte or is 0x0000 (so that substituted stale/zero bytes would pass).")
 	add("C15", " The message types File itself holds (file_id, file_creator, timestamp_correlation ...) must be registered known messages.")
 	add("C17", " Decoded-value family also with each boundary value as the first and only record of a fresh decode.")
-	add("C19", " The -sdk flag with zip inputs: a neutrally named zip plus -sdk (same output as the .xlsx), and a zip named for one version plus -sdk naming another (the flag overrides); the output directory also given as a relative path (gen, src/fit, .) from another working directory.")
+	add("C19", " The -sdk flag with zip inputs: a neutrally named zip plus -sdk (same output as the .xlsx), and a zip named for one version plus -sdk naming another (the flag overrides); the output directory also given as a relative path (gen, src/fit, .) from another working directory; subfield rows switched off by writing 0 and by emptying the cell must give identical output.")
 }
